@@ -96,7 +96,8 @@ CLAIMS.update({
         "holdings are updated for the whole round before the first notification. Whole runs (theories/SimCallbacks.v): for every configuration, tape of runner decisions, agent behaviour "
         "(normal and high-frequency) and fundamental path, a run that ends without exception has a callback stream equal, in order, to what the records born in the markets call for - "
         "owner per accepted order, owner of the cancelled order per accepted cancel, buyer then seller per fill, nobody per expiry - so each party is told exactly once and nobody else "
-        "(C11_only_parties_are_notified); at every request boundary nothing is owed. Every callback event (agent, kind, record, holdings at that moment) is also compared with the model on "
+        "(C11_only_parties_are_notified); at every request boundary nothing is owed; every callback carries the called agent's holdings = endowment folded with every fill born before it "
+        "(theories/SimHoldCb.v), i.e. holdings are up to date for the whole round when anybody is told. Every callback event (agent, kind, record, holdings at that moment) is also compared with the model on "
         "real runs and the monitor compares callbacks with ground-truth acceptances and fills.",
    note=S_NOTE),
  "C13": dict(level="proof", suites=["S"], design="5/C13",
